@@ -27,6 +27,7 @@ structure OSt where
   dests : List Dest := []
   st : Option St := none
   nextId : Nat := 0
+  rates : List Nat := []     -- sample rate of event i (given with the operation, `r=`)
 
 def tail1 (s : String) : String := String.ofList (s.toList.drop 1)
 
@@ -39,6 +40,9 @@ def parseDest (tok : String) : Dest × String :=
 /-- the header carries strings percent-encoded (`%` is the empty string); only the three dataset
 names `url.JoinPath` cleans away matter to the model, every other token stands for itself -/
 def escOfTok (tok : String) : String := if tok == "%" then "" else tok
+
+def rateOfOp (op : List String) : Nat :=
+  ((op.findSome? fun a => match a.splitOn "=" with | ["r", v] => some v | _ => none).bind String.toNat?).getD 1
 
 def scriptOf (op : List String) : List String :=
   match op.findSome? (fun a => match a.splitOn "=" with | ["s", v] => some v | _ => none) with
@@ -121,7 +125,8 @@ def obsOf (o : OSt) (s : St) (newDisps : List Disp) (toks : List String) : Strin
     else
       let recs := p.2.log.map fun a =>
         let ids := ".".intercalate (a.events.map fun e => toString e.id)
-        s!"{a.bodyLen}|{ids}|{a.time}|{toks.getD a.sidx "ok"}"
+        let rts := ".".intercalate (a.events.map fun e => toString (wireRate (o.rates.getD e.id 1)))
+        s!"{a.bodyLen}|{ids}|{a.time}|{toks.getD a.sidx "ok"}|{rts}"
       let key : GKey := match p.2.log.head? with
         | some a =>
           if a.path == ownPath (o.cfg.esc a.dest.dataset) then (idxOf o.dests p.1.dest + 1, "")
@@ -133,6 +138,13 @@ def obsOf (o : OSt) (s : St) (newDisps : List Disp) (toks : List String) : Strin
   s!"g={g} c={cs} sl={sls} a={as} w=0"
 
 def oStep (o : OSt) (op : List String) (exts : List (List String)) : OSt × Option String :=
+  -- the events this operation creates get ids nextId, nextId+1, …: note their sample rate
+  let created := match op with
+    | "enq" :: _ => 1
+    | "cenq" :: k :: _ => k.toNat?.getD 0
+    | "advh" :: _ :: k :: _ => k.toNat?.getD 0
+    | _ => 0
+  let o := { o with rates := o.rates ++ List.replicate (o.nextId + created - o.rates.length) (rateOfOp op) }
   let toks := scriptOf op
   match toks.mapM (srvOf exts) with
   | none => (o, some "bad-op")
@@ -209,6 +221,7 @@ structure MEv where
   dest : Nat
   t0 : Nat
   fit : Bool
+  rate : Nat := 1          -- the event's SampleRate
   size : Nat := 0          -- serialized size (0 when the event does not marshal)
   rank : Nat := 0          -- number of the enqueue operation (concurrent enqueues share one)
   seen : Bool := false
@@ -272,10 +285,20 @@ def monGroup (m : MSt) (grp : String) : MSt × List Fail :=
       let recs := (recsS.splitOn ",").map fun r => r.splitOn "|"
       let perRec : List Fail := recs.flatMap fun r =>
         match r with
-        | [len, idsS, t, _] =>
+        | [len, idsS, t, _, rtsS] =>
           let len := len.toNat?.getD 0
           let t := t.toNat?.getD 0
           let ids := if idsS == "" then [] else (idsS.splitOn ".").filterMap String.toNat?
+          let wire := if rtsS == "" then [] else (rtsS.splitOn ".").filterMap String.toInt?
+          (if wire.length != ids.length then [fail "C26:samplerate-altered-on-wire" s!"request with {ids.length} events carries {wire.length} sample rates"]
+           else (ids.zip wire).flatMap fun (id, w) =>
+             match m.evs.find? (·.id == id) with
+             | some e =>
+               -- rates an int64 cannot hold (>= 2^63) are outside the claim: the conversion wraps
+               if e.rate < 2 ^ 63 && w != (e.rate : Int) then
+                 [fail "C26:samplerate-altered-on-wire" s!"event {id} has sample rate {e.rate} but is forwarded with samplerate {w}"]
+               else []
+             | none => []) ++
           (if len > maxBodyBytes then [fail "C26:body-over-5MB" s!"request body of {len} bytes to d{di}"] else []) ++
           (if ids.length > m.mb then [fail "C26:batch-over-MaxBatchSize" s!"request with {ids.length} events, MaxBatchSize {m.mb}"] else []) ++
           (if ids.isEmpty then [fail "C26:empty-request" s!"request without events to d{di}"] else []) ++
@@ -294,10 +317,10 @@ def monGroup (m : MSt) (grp : String) : MSt × List Fail :=
               (if t * 4 ≥ e.t0 * 4 + 5 * m.bt then [fail "C26:dispatched-later-than-1.25-BatchTimeout" s!"event {id} enqueued at {e.t0} sent at {t}, BatchTimeout {m.bt}"] else [])
         | _ => [fail "C26:unreadable-observation" "attempt record"]
       let m := if recs.any (fun r => match r with
-          | [_, _, _, b] => ["cl", "cx", "er", "to", "hg"].contains b
+          | [_, _, _, b, _] => ["cl", "cx", "er", "to", "hg"].contains b
           | _ => false) then { m with terr := true } else m
       let idLists := recs.filterMap fun r => match r with
-        | [_, idsS, _, _] => some ((idsS.splitOn ".").filterMap String.toNat?)
+        | [_, idsS, _, _, _] => some ((idsS.splitOn ".").filterMap String.toNat?)
         | _ => none
       let rs := runs idLists
       let attemptFails := rs.flatMap fun (ids, n) =>
@@ -331,7 +354,7 @@ def tMon (m : MSt) (op : List String) (exts : List (List String)) (obs : Option 
         let fit := match (extVal exts "size" (toString id)).bind String.toNat? with
           | some n => decide (n ≤ maxEventBytes)
           | none => false
-        { m with evs := m.evs ++ [{ id := id, dest := dls.getD (i % dls.length) 999, t0 := th, fit := fit, size := sz, rank := m.nops * 1000 + i }] }) m
+        { m with evs := m.evs ++ [{ id := id, dest := dls.getD (i % dls.length) 999, t0 := th, fit := fit, rate := rateOfOp op, size := sz, rank := m.nops * 1000 + i }] }) m
       { m with now := target, during := m.during || (k > 0) }
     | "cenq" :: k :: dl :: _ =>
       if m.stopped then m else
@@ -342,7 +365,7 @@ def tMon (m : MSt) (op : List String) (exts : List (List String)) (obs : Option 
         let fit := match (extVal exts "size" (toString id)).bind String.toNat? with
           | some n => decide (n ≤ maxEventBytes)
           | none => false
-        { m with evs := m.evs ++ [{ id := id, dest := dls.getD (i % dls.length) 999, t0 := m.now, fit := fit, size := sz, rank := m.nops * 1000 }] }) m
+        { m with evs := m.evs ++ [{ id := id, dest := dls.getD (i % dls.length) 999, t0 := m.now, fit := fit, rate := rateOfOp op, size := sz, rank := m.nops * 1000 }] }) m
     | "enq" :: di :: _ =>
       if m.stopped then m else
       let id := m.evs.length
@@ -350,7 +373,7 @@ def tMon (m : MSt) (op : List String) (exts : List (List String)) (obs : Option 
       let fit := match (extVal exts "size" (toString id)).bind String.toNat? with
         | some n => decide (n ≤ maxEventBytes)
         | none => false
-      { m with evs := m.evs ++ [{ id := id, dest := di.toNat?.getD 999, t0 := m.now, fit := fit, size := sz, rank := m.nops * 1000 }] }
+      { m with evs := m.evs ++ [{ id := id, dest := di.toNat?.getD 999, t0 := m.now, fit := fit, rate := rateOfOp op, size := sz, rank := m.nops * 1000 }] }
     | "adv" :: d :: _ => { m with now := m.now + d.toNat?.getD 0 }
     | _ => m
   match op, obs with
